@@ -222,6 +222,22 @@ func c14(c *Ctx) {
 		}
 	}
 
+	{
+		// the producer of the snapshot holds the database's locks while it writes into the pipe:
+		// the consumer side must be closed on every exit, or a client that stops reading early
+		// (position mismatch) leaves the producer blocked with those locks held
+		closes := p.Calls("io.(*PipeReader).Close", "io.(*PipeReader).CloseWithError")
+		cl3 := c.anonWith(ss, closes)
+		reg := func(in ssa.Instruction) bool {
+			if closes(in) {
+				return true // a direct or deferred call in the function itself
+			}
+			d, ok := in.(*ssa.Defer)
+			return ok && cl3 != "" && p.FuncName(p.calleeFunc(d)) == cl3
+		}
+		c.Before("snapshot/pipe-closed-on-exit", ss, IsReturn, reg, 2, "every exit of streamBackupDBSnapshot has closed (or registered the close of) the read side of the snapshot pipe", "a refused upload is followed by the restore from backup, which needs the write lock: a snapshot goroutine left blocked in the pipe keeps its read locks for ever and the primary never adopts the service's state")
+	}
+
 	// ---- service side: file client ----
 	fw := "litefs.(*FileBackupClient).WriteTx"
 	rename := p.PlainCalls("os.Rename")
